@@ -65,6 +65,9 @@ macro_rules! pool {
             Words(usize),
             /// `crate::types::Heavy<N>`: a `String` plus N × 8 bytes, align 8, owns memory.
             Heavy(usize),
+            /// A datum of arbitrary (size, alignment) as a foreign type table or an override can describe
+            /// it, e.g. size 4 / align 16. No Rust type has such a layout: definition-only histories.
+            Shape(usize, usize),
         }
 
         pub const ALL_TYPES: &[Ty] = &[$(Ty::$id),*];
@@ -76,17 +79,18 @@ macro_rules! pool {
                 Ty::Blob(n) => leak(format!("crate::types::Blob<{}>", n)),
                 Ty::Words(n) => leak(format!("crate::types::Words<{}>", n)),
                 Ty::Heavy(n) => leak(format!("crate::types::Heavy<{}>", n)),
+                Ty::Shape(s, a) => leak(format!("crate::types::Shape<{}, {}>", s, a)),
             } }
-            pub fn is_copy(self) -> bool { match self { $(Ty::$id => $copy,)* Ty::Blob(_) | Ty::Words(_) => true, Ty::Heavy(_) => false } }
+            pub fn is_copy(self) -> bool { match self { $(Ty::$id => $copy,)* Ty::Blob(_) | Ty::Words(_) | Ty::Shape(..) => true, Ty::Heavy(_) => false } }
             pub fn is_clone(self) -> bool { match self { $(Ty::$id => $clone,)* _ => true } }
             pub fn is_serde(self) -> bool { match self { $(Ty::$id => $serde,)* _ => true } }
             pub fn is_user(self) -> bool { match self { $(Ty::$id => $user,)* _ => true } }
             pub fn size(self) -> usize { match self { $(Ty::$id => std::mem::size_of::<$ty>(),)*
-                Ty::Blob(n) => n, Ty::Words(n) => 8 * n, Ty::Heavy(n) => std::mem::size_of::<String>() + 8 * n } }
+                Ty::Blob(n) => n, Ty::Words(n) => 8 * n, Ty::Heavy(n) => std::mem::size_of::<String>() + 8 * n, Ty::Shape(s, _) => s } }
             pub fn align(self) -> usize { match self { $(Ty::$id => std::mem::align_of::<$ty>(),)*
-                Ty::Blob(_) => 1, Ty::Words(_) | Ty::Heavy(_) => 8 } }
+                Ty::Blob(_) => 1, Ty::Words(_) | Ty::Heavy(_) => 8, Ty::Shape(_, a) => a } }
             pub fn needs_drop(self) -> bool { match self { $(Ty::$id => std::mem::needs_drop::<$ty>(),)*
-                Ty::Blob(_) | Ty::Words(_) => false, Ty::Heavy(_) => true } }
+                Ty::Blob(_) | Ty::Words(_) | Ty::Shape(..) => false, Ty::Heavy(_) => true } }
 
             /// Adds a datum of this type through the entry point that suits it.
             pub fn add<R: TypeResolver>(
@@ -117,7 +121,7 @@ macro_rules! pool {
                 // const-generic user types of a size chosen at run time: everything the builder
                 // needs is given explicitly (rustc's own layout of the named type is what the
                 // generated assertions and the analyser compare against).
-                Ty::Blob(_) | Ty::Words(_) | Ty::Heavy(_) => {
+                Ty::Blob(_) | Ty::Words(_) | Ty::Heavy(_) | Ty::Shape(..) => {
                     let mut size = self.size();
                     let mut align = self.align();
                     if let Some(f) = ov.size { size = f(size); }
@@ -263,11 +267,13 @@ pub struct ModuleSpec {
     pub serde: bool,
     /// Expected outcome for witness modules ("compiles" | "E0080" | "E0277"), informational.
     pub expect: Option<String>,
+    /// Only the definition is recorded (shapes no Rust type has: the module is never compiled).
+    pub definition_only: bool,
 }
 
 impl ModuleSpec {
     pub fn new(tag: impl Into<String>, history: Vec<Step>) -> Self {
-        Self { tag: tag.into(), history, clone: false, serde: false, expect: None }
+        Self { tag: tag.into(), history, clone: false, serde: false, expect: None, definition_only: false }
     }
     pub fn with(mut self, clone: bool, serde: bool) -> Self {
         self.clone = clone;
@@ -519,6 +525,9 @@ fn emit_modules(
                 let cfg = config(spec.clone, spec.serde);
                 match catch_unwind(AssertUnwindSafe(|| generate(&def, &cfg))) {
                     Err(e) => entry["generator_panic"] = json!(panic_msg(e)),
+                    Ok(_) if spec.definition_only => {
+                        entry["definition_only"] = json!(true);
+                    }
                     Ok(text) => {
                         let file = out.join(format!("{}.rs", name));
                         fs::write(&file, &text).unwrap();
